@@ -52,8 +52,10 @@ impl Decimal {
         ensures is_round_to(r.v(), self.v(), dp as nat),
             s == RoundingStrategy::MidpointAwayFromZero ==> is_round_half_away(r.v(), self.v(), dp as nat)
     { unimplemented!() }
+    /// the decimal text of a value (A-dec: Display of rust_decimal is a function of the value and its scale; the scale is invisible here)
+    pub uninterp spec fn dec_str(v: real) -> Seq<char>;
     #[verifier::external_body]
-    pub fn to_string(&self) -> String { unimplemented!() }
+    pub fn to_string(&self) -> (r: String) ensures r@ == Decimal::dec_str(self.v()) { unimplemented!() }
 }
 impl Copy for Decimal {}
 impl Clone for Decimal {
